@@ -547,60 +547,79 @@ def corr_cells(ctx, drv):
                          'repeated collapse of a func_instance with $fixups')
 
 
-def corr_nested(ctx, drv):
-    """Two-level inclusion through collapse_all: the inner brush ends at place (P_inner >> P_outer)."""
+def run_nested(seed):
+    """Two-level inclusion through collapse_all (top -> outer.vmf -> inner.vmf with one brush), from a sub-seed."""
     im = impl()
-    I, VMF, Vec, Matrix, Angle = im['I'], im['VMF'], im['Vec'], im['Matrix'], im['Angle']
-    rng = ctx.rng
+    I, VMF, Matrix, Angle = im['I'], im['VMF'], im['Matrix'], im['Angle']
+    rng = random.Random(seed)
+    inner = VMF()
+    inner.add_brush(G._rand_brush(rng, im, inner))
+    (a1, _), (o1, _) = G.rand_angle(rng), G.rand_origin(rng)
+    (a2, _), (o2, _) = G.rand_angle(rng), G.rand_origin(rng)
+    o1 = tuple(x / 8 for x in o1)
+    outer = VMF()
+    outer.create_ent('func_instance', file='inner.vmf', targetname='in', origin=G.fmt_vec(o1), angles=G.fmt_vec(a1))
+    top = VMF()
+    top.create_ent('func_instance', file='outer.vmf', targetname='out', origin=G.fmt_vec(o2), angles=G.fmt_vec(a2))
+    fsys = im['VirtualFileSystem']({'inner.vmf': inner.export(inc_version=False), 'outer.vmf': outer.export(inc_version=False)})
+    r = {'seed': seed, 'case': {'nested': [a1, o1, a2, o2]}, 'o1': o1, 'o2': o2,
+         'sides0': [G._side_floats(s) for s in inner.brushes[0].sides]}
+    try:
+        I.collapse_all(top, fsys, recur_limit=3)
+        r['err'] = None
+    except Exception as e:
+        r['err'] = f'{type(e).__name__}: {e}'
+    r['n'] = len(top.brushes)
+    r['got'] = [G._side_floats(s) for s in top.brushes[0].sides] if top.brushes else []
+    r['R1'] = Matrix.from_angle(Angle(*a1)); r['R2'] = Matrix.from_angle(Angle(*a2))
+    m1, m2 = G.mat_entries(r['R1']), G.mat_entries(r['R2'])
+    comp = [sum(m1[3 * i + t] * m2[3 * t + j] for t in range(3)) for i in range(3) for j in range(3)]
+    # the nested func_instance went through text (origin/angles at 6 decimals): coordinates up to ~5000 * 1e-8 rad;
+    # if its composed orientation is within 0.0011 of vertical, to_angle drops up to 1e-3 rad of roll
+    r['gimbal'] = G.gimbal(comp)
+    r['tol'] = 2.5e-3 * (1.0 + max(abs(c) for s_ in r['sides0'] for p in s_['p'] for c in p)) if r['gimbal'] else 2e-3
+    return r
+
+
+def check_nested(r):
+    """Statement: the inner brush ends where placing by the inner and then by the outer placement puts it."""
+    if r['err'] is not None or r['n'] != 1:
+        return [('nested', f'two-level inclusion {r["case"]}: {r["err"] or str(r["n"]) + " brushes"}')]
+    m1, m2 = G.mat_entries(r['R1']), G.mat_entries(r['R2'])
+    for so, sn in zip(r['sides0'], r['got']):
+        for p, q in zip(so['p'], sn['p']):
+            want = G.py_place(m2, r['o2'], G.py_place(m1, r['o1'], p))
+            if any(abs(q[j] - want[j]) > r['tol'] for j in range(3)):
+                return [('nested', f'inner brush point {p} of a two-level inclusion {r["case"]} ends at {q}, expected {want}')]
+    return []
+
+
+def corr_nested(ctx, drv):
+    """Two-level inclusion: implementation against the model's `comp` + `place` (C17_compose)."""
     reqs, meta = [], []
     for _ in range(ctx.budget(40, 400)):
-        inner = VMF()
-        inner.add_brush(G._rand_brush(rng, im, inner))
-        (a1, _), (o1, _) = G.rand_angle(rng), G.rand_origin(rng)
-        (a2, _), (o2, _) = G.rand_angle(rng), G.rand_origin(rng)
-        o1 = tuple(x / 8 for x in o1)
-        outer = VMF()
-        outer.create_ent('func_instance', file='inner.vmf', targetname='in', origin=G.fmt_vec(o1), angles=G.fmt_vec(a1))
-        top = VMF()
-        top.create_ent('func_instance', file='outer.vmf', targetname='out', origin=G.fmt_vec(o2), angles=G.fmt_vec(a2))
-        fsys = im['VirtualFileSystem']({'inner.vmf': inner.export(inc_version=False), 'outer.vmf': outer.export(inc_version=False)})
-        sides0 = [G._side_floats(s) for s in inner.brushes[0].sides]
-        try:
-            I.collapse_all(top, fsys, recur_limit=3)
-            err = None
-        except Exception as e:
-            err = f'{type(e).__name__}: {e}'
-        case = {'nested': [a1, o1, a2, o2]}
-        ctx.case(case, nontrivial=True)
+        seed = ctx.rng.getrandbits(40)
+        r = run_nested(seed)
+        ctx.case(r['case'], nontrivial=True)
         ctx.count('nested two-level')
-        if err is not None or len(top.brushes) != 1:
-            _wit(ctx, 'nested', f'two-level inclusion {case}: {err or str(len(top.brushes)) + " brushes"}', {'kind': 'nested', 'case': case})
-            continue
-        R1 = Matrix.from_angle(Angle(*a1)); R2 = Matrix.from_angle(Angle(*a2))
-        reqs.append({'op': 'comp', 'R1': G.m3(R1), 'o1': G.v3(o1), 'R2': G.m3(R2), 'o2': G.v3(o2)})
-        reqs.append({'op': 'place', 'R': G.m3(R2), 'o': G.v3(o2), 'pts': [G.v3(G.py_place(G.mat_entries(R1), o1, p)) for s in sides0 for p in s['p']]})
-        meta.append((case, sides0, [G._side_floats(s) for s in top.brushes[0].sides], R1, R2, o1, o2))
-    rep = drv.batch(reqs)
-    reqs2 = []
-    for k, (case, sides0, got, R1, R2, o1, o2) in enumerate(meta):
-        P = rep[2 * k]
-        reqs2.append({'op': 'place', 'R': P['R'], 'o': P['o'], 'pts': [G.v3(p) for s in sides0 for p in s['p']]})
-    rep2 = drv.batch(reqs2)
-    for k, (case, sides0, got, R1, R2, o1, o2) in enumerate(meta):
-        ctx.traces_vs_impl += 1
-        pts_model = [[G.unrat(c) for c in p] for p in rep2[k]['pts']]
-        pts_impl = [p for s in got for p in s['p']]
-        # the nested func_instance went through text (origin/angles at 6 decimals): coordinates up to ~5000 * 1e-8 rad;
-        # if its composed orientation is within 0.0011 of vertical, to_angle drops up to 1e-3 rad of roll
-        m1, m2 = G.mat_entries(R1), G.mat_entries(R2)
-        comp = [sum(m1[3 * i + t] * m2[3 * t + j] for t in range(3)) for i in range(3) for j in range(3)]
-        tol = 2e-3
-        if G.gimbal(comp):
+        if r['gimbal']:
             ctx.count('nested near-vertical (loose tolerance)')
-            tol = 2.5e-3 * (1.0 + max(abs(c) for s_ in sides0 for p in s_['p'] for c in p))
-        if len(pts_model) != len(pts_impl) or any(abs(a[j] - float(b[j])) > tol for a, b in zip(pts_impl, pts_model) for j in range(3)):
-            ctx.disagree(case, pts_impl[:3], [[float(c) for c in p] for p in pts_model[:3]], 'nested inclusion vs place (P1 >> P2)')
-            _wit(ctx, 'nested', f'inner brush of a two-level inclusion is not at the composed placement: {case}', {'kind': 'nested', 'case': case})
+        bad = check_nested(r)
+        for key, what in bad:
+            _wit(ctx, key, what, {'kind': 'nested', 'seed': seed})
+        if r['err'] is not None or r['n'] != 1:
+            continue
+        reqs.append({'op': 'comp', 'R1': G.m3(r['R1']), 'o1': G.v3(r['o1']), 'R2': G.m3(r['R2']), 'o2': G.v3(r['o2'])})
+        meta.append(r)
+    rep = drv.batch(reqs)
+    reqs2 = [{'op': 'place', 'R': P['R'], 'o': P['o'], 'pts': [G.v3(p) for s in r['sides0'] for p in s['p']]}
+             for r, P in zip(meta, rep)]
+    for r, m in zip(meta, drv.batch(reqs2)):
+        ctx.traces_vs_impl += 1
+        pts_model = [[G.unrat(c) for c in p] for p in m['pts']]
+        pts_impl = [p for s in r['got'] for p in s['p']]
+        if len(pts_model) != len(pts_impl) or any(abs(a[j] - float(b[j])) > r['tol'] for a, b in zip(pts_impl, pts_model) for j in range(3)):
+            ctx.disagree(r['case'], pts_impl[:3], [[float(c) for c in p] for p in pts_model[:3]], 'nested inclusion vs place (P1 >> P2)')
 
 
 def corr_from_angle(ctx, drv):
@@ -830,6 +849,10 @@ def search(ctx):
         for g in [gen_graph(ctx.rng, ctx.thorough) for _ in range(ctx.budget(120, 1200))]:
             for key, what in check_collapse_all(g, run_collapse_all(impl(), g)):
                 _wit(ctx, key, what, {'kind': 'graph', 'graph': g})
+        for _ in range(ctx.budget(40, 400)):
+            seed = ctx.rng.getrandbits(40)
+            for key, what in check_nested(run_nested(seed)):
+                _wit(ctx, key, what, {'kind': 'nested', 'seed': seed})
     for k in range(n):
         seed = ctx.rng.getrandbits(40)
         nv = k % 2 == 0
@@ -886,6 +909,10 @@ def replay(ctx, payload):
         r = run_collapse_all(impl(), inp['graph'])
         bad = check_collapse_all(inp['graph'], r)
         print(r, bad)
+        return not bad
+    if kind == 'nested':
+        bad = check_nested(run_nested(inp['seed']))
+        print(bad)
         return not bad
     if kind == 'subst':
         r, _ = impl_subst(impl(), [tuple(x) for x in inp['table']], inp['dflt'], inp['text'])
